@@ -240,6 +240,20 @@ impl Elem for u8 {
         *self as u32
     }
 }
+impl Elem for u16 {
+    const NAME: &'static str = "u16";
+    const TRACKED: bool = false;
+    const ZST: bool = false;
+    fn make() -> Self {
+        plain_next() as u16
+    }
+    fn is_clone_of(&self, o: &Self) -> bool {
+        self == o
+    }
+    fn ident(&self) -> u32 {
+        *self as u32
+    }
+}
 impl Elem for u64 {
     const NAME: &'static str = "u64";
     const TRACKED: bool = false;
